@@ -177,6 +177,18 @@ impl Parser {
             .to_err_vec()?
             .clone();
 
+        // `Self` in the signature of a member means the class the member is looked up on -- not the
+        // class whose method happens to be compiled right now. Class types recorded before the class
+        // was fully built (the module pre-pass, members that mention their own class) still carry an
+        // unresolved `Self`.
+        if let TypeLayout::Class(class_type) = lhs_ty.disregard_distractors(true) {
+            if type_of_property.mentions_class_self() {
+                type_of_property = Cow::Owned(
+                    type_of_property.update_all_references_to_class_self(class_type.clone()),
+                );
+            }
+        }
+
         if type_of_property.disregard_distractors(true).is_class_self() {
             type_of_property = Cow::Owned(lhs_ty.to_owned());
         }
